@@ -156,7 +156,9 @@ def coq_eval(name, preamble, bodies, timeout=600, jobs=8):
     n = len(bodies)
     if n == 0:
         return []
-    per = max(1, (n + jobs - 1) // jobs)
+    # at most 400 cases per file (large literals make coqc slow and memory hungry), at most `jobs` coqc at a time;
+    # a file that runs out of time is tried once more on its own with a fourfold limit (a busy machine is not a finding)
+    per = max(1, min(400, (n + jobs - 1) // jobs))
     files = []
     for j in range(0, n, per):
         path = os.path.join(d, f'cases_{j // per}.v')
@@ -166,14 +168,21 @@ def coq_eval(name, preamble, bodies, timeout=600, jobs=8):
                 fh.write(f"Definition case_{j + i} := {b}.\n")
                 fh.write(f'Eval vm_compute in (777000777%Z, {j + i}%Z, case_{j + i}).\n')
         files.append(path)
-    procs = [subprocess.Popen(['timeout', str(timeout), 'coqc'] + QARGS + [p], cwd=COQ, stdout=subprocess.PIPE,
-                              stderr=subprocess.STDOUT, text=True) for p in files]
+
+    def one(path, limit):
+        p = subprocess.run(['timeout', str(limit), 'coqc'] + QARGS + [path], cwd=COQ, stdout=subprocess.PIPE,
+                           stderr=subprocess.STDOUT, text=True)
+        return p.returncode, p.stdout
+    import concurrent.futures
     results = {}
     errors = []
-    for p, f in zip(procs, files):
-        out, _ = p.communicate()
-        if p.returncode != 0:
-            errors.append(f"{f}: rc={p.returncode}: {out[-800:]}")
+    with concurrent.futures.ThreadPoolExecutor(max_workers=jobs) as ex:
+        outs = list(ex.map(lambda f: one(f, timeout), files))
+    for f, (rc, out) in zip(files, outs):
+        if rc == 124:
+            rc, out = one(f, timeout * 4)
+        if rc != 0:
+            errors.append(f"{f}: rc={rc}: {out[-800:]}")
         flat = re.sub(r'\s+', ' ', out)
         for m in re.finditer(r'= \(777000777, (\d+), (.*?)\) : ', flat):
             results[int(m.group(1))] = m.group(2).strip()
